@@ -384,6 +384,16 @@ func runC07(c *Ctx, r *Report) {
 	c06r1(c, r) // printed text is the input record: items must not be overwritten after being read
 	c09r1(c, r) // selections are printed in the order they were made: re-selecting must not re-stamp
 
+	c07r5(c, r)
+	c06r6(c, r) // what is printed is what was read: no alias of an item's runes is edited in place
+	c15r7(c, r) // a selection made before a reload must not print records of the old list
+	c13r6(c, r) // selected items are held by pointer: Snapshot must not shift items inside a shared chunk
+}
+
+// c07r5: the --with-nth builder keeps the record (shared with C06).
+func c07r5(c *Ctx, r *Report) {
+	l := c.L
+	run := l.Fn("fzf", "Run")
 	// ---------------- R5 ----------------
 	r.rule("C07-R5", "A (must-pass-through)", "P1",
 		"in the item builder that transforms the text (--with-nth), every path returning true stores the record's bytes into Item.origText",
